@@ -45,7 +45,9 @@ def parse_hist(out):
             for m in re.finditer(r"(RES|EV|VALS|SNAP|JITS|DIFF)=(.*?)(?= (?:RES|EV|VALS|SNAP|JITS|DIFF)=|$)", rest):
                 f[m.group(1)] = m.group(2)
             if pre:
-                r = Rec(); r.l = li; r.tag = tag; r.res = f.get("RES", ""); r.ev = [e for e in f.get("EV", "").split(";") if e]
+                r = Rec(); r.l = li; r.tag = tag; r.res = f.get("RES", ""); allev = [e for e in f.get("EV", "").split(";") if e]
+                r.ev = [e for e in allev if not e.startswith("MX ")]          # the compared trace
+                r.noexec = [e for e in allev if e.startswith("MX ")]          # protection changes without execute permission (judged apart)
                 r.snap = kv(f.get("SNAP", "")); r.jits = kv(f.get("JITS", "")); r.vals = None; r.diff = None
                 h["recs"].append(r)
             else:
